@@ -370,7 +370,8 @@ func c01RandWeights(g *vkit.Rand) []int {
 func c01(r *vkit.Run) {
 	r.SetRule("weight vectors: every vector with N<=4, w in 1..5 (780, each as init / noop-update at EVERY offset 0..W-1 / gslb) plus random vectors N 1..8, w 1..12 (equal, dominant, primes, duplicates, uniform), a quarter of them with some backends unavailable or weight 0 from before the first pick. Each run records (periods+1)*W picks and checks every window of W picks, seq[t]==seq[t+W], and equality of two fresh instances with different names/addresses. Windows are asserted from Init and across Updates that keep the (address, weight) multiset (slow start off); sequences after weight-changing reloads are not asserted. Non-trivial = >=2 eligible backends; distinct = (weights, down mask, variant, update offset). " +
 		"RELOAD HISTORIES (BalanceRR direct, a quarter through BalanceGslb.BackendReload): 15000 (thorough 300000) random histories Init(A), 1-5 reloads of kind weight (survivors' weights change, incl. to 0) / add / remove / replace (same length) / mixed / noop-same / noop-reorder (same (addr,weight) multiset in another order), each followed by 0..3W picks, then 0..8W picks and 1-4 no-op reloads each followed by 1..3W picks, so that no-op reloads land on every phase; plus systematically every ordered pair A->B of weight vectors (quick: N=2 w<=5, N=3 w<=3) x every phase u in 0..W_B-1: Init(A), Update(B), 4W_B+u picks, Update(B), 2W_B+1 picks, Update(B reversed), 2W_B picks. Asserted: (1) the pick sequence equals that of a twin balancer that runs the same history without the no-op reloads (noop-reload-disturbs-sequence); (2) in the steady segment after the LAST configuration-changing reload, from the first exact window of W picks (starting >=1 pick after the change; the real code needs up to ~3 periods after a change, reported in reload_histories, not asserted) every later window of W picks is exact and seq[t]==seq[t+W], across all no-op reloads (steady-window-count, steady-period). History non-trivial = >=2 eligible backends in the final list and >=1 no-op reload with a full exact window before it and a pick after it; distinct = hash of the history. " +
-		"SLOW-START HISTORIES (c01ss.go; 80, thorough 400, all running at the same time, BalanceRR direct and a third through BalanceGslb; slow_start_time = 1 s, real waits because bal_slb reads the clock directly): backends enter slow start by being added by a reload or by recovery (SetRestart(true)+SetAvail(true)); scenarios idle-gap (1-3 newcomers, 1-3 selections, then nothing for 1.5-2.4 s: the first selection after the ramp's end is late), traffic-during-ramp (1-3 selections every 5-40 ms for >=1.5 s), reload-during-ramp (a second reload 150-600 ms into the ramp: another newcomer / a backend leaves / a weight changes / reorder / identical), recovery (a present backend down and back, optionally reloaded or re-weighted meanwhile, optionally another one down during the steady segment), late-first-pick (nothing selected for 200-700 ms after the reload). The driver then waits until >= 1.5 x slow_start_time have passed since the last selection that started a ramp, makes 3W..4W settle selections and records a steady segment of 8W..10W selections. Asserted (time-independent): (a) in the snapshots after the settle and after the steady selections every backend has effective weight = configured weight x unit (unit measured from a fresh Init; sig slowstart:finished-weight-not-configured:<weight-unchanged|weight-reloaded>-since-creation), (b) the steady segment satisfies the conditional exact-window property and the period with the configured weights of the available backends. Not judged (counted): histories where a backend is still in slow start after the wait. Non-trivial = >=2 eligible backends, >=1 backend went through slow start, an exact window was seen; distinct = hash of the history")
+		"SLOW-START HISTORIES (c01ss.go; 80, thorough 400, all running at the same time, BalanceRR direct and a third through BalanceGslb; slow_start_time = 1 s, real waits because bal_slb reads the clock directly): backends enter slow start by being added by a reload or by recovery (SetRestart(true)+SetAvail(true)); scenarios idle-gap (1-3 newcomers, 1-3 selections, then nothing for 1.5-2.4 s: the first selection after the ramp's end is late), traffic-during-ramp (1-3 selections every 5-40 ms for >=1.5 s), reload-during-ramp (a second reload 150-600 ms into the ramp: another newcomer / a backend leaves / a weight changes / reorder / identical), recovery (a present backend down and back, optionally reloaded or re-weighted meanwhile, optionally another one down during the steady segment), late-first-pick (nothing selected for 200-700 ms after the reload). The driver then waits until >= 1.5 x slow_start_time have passed since the last selection that started a ramp, makes 3W..4W settle selections and records a steady segment of 8W..10W selections. Asserted (time-independent): (a) in the snapshots after the settle and after the steady selections every backend has effective weight = configured weight x unit (unit measured from a fresh Init; sig slowstart:finished-weight-not-configured:<weight-unchanged|weight-reloaded>-since-creation), (b) the steady segment satisfies the conditional exact-window property and the period with the configured weights of the available backends. Not judged (counted): histories where a backend is still in slow start after the wait. Non-trivial = >=2 eligible backends, >=1 backend went through slow start, an exact window was seen; distinct = hash of the history. " +
+		"CONCURRENT PICK PHASES (c01cc.go; 240 balancers, thorough 2400, one at a time; BalanceRR.Balance(WrrSmooth) direct, a fifth through BalanceGslb.Balance on one sub-cluster): weight vectors with 2-8 backends (as above), 9-23 backends (w 1..12) and 24-64 backends (w 1..8, a selection walks a long list), a quarter with some backends unavailable / weight 0 from before the first selection; 0..2W sequential selections, then 2-5 phases: G in {2,3,4,6,8,12,16} goroutines start together and make exactly k*W selections in total on the one balancer (split evenly / one goroutine half / random, 1500-10000 selections per phase and at least 150 per goroutine, a quarter of the phases with goroutines yielding), no reload and no availability change during a phase. At quiescence after every phase, asserted (counting and equality only, no timing): (a) each backend was selected exactly k*weight times (concurrent:share-not-exact); (b) credit state and effective weights read with VerifSnapshot equal those of a twin balancer (same ordered weight list) that made the same number of selections sequentially (concurrent:state-differs-from-sequential); (c) the next W selections, made sequentially, are an exact window (concurrent:following-window-count) and equal the twin's next W selections (concurrent:following-sequence-differs). Observed per phase: the largest number of goroutines inside Balance at the same time (atomic counter around the call); a phase counts as overlapped when it is >= 2; the run is inconclusive if fewer than 50 or fewer than a tenth of the phases overlapped on BalanceRR, or a G class / the >=24-backend class never occurred. Non-trivial = >=2 eligible backends and >=1 overlapped phase; distinct = the case")
 	r.Assume("W = sum of configured weights of the eligible backends (the x100 scaling cancels)")
 	periods := r.N(4, 50)
 	if r.Replay != "" {
@@ -378,12 +379,17 @@ func c01(r *vkit.Run) {
 			Case c01Case    `json:"case"`
 			Hist *c01Hist   `json:"hist"`
 			SS   *c01SSHist `json:"sshist"`
+			CC   *c01CCase  `json:"cc"`
 		}
 		if err := r.LoadReplay(&w); err != nil {
 			r.Inconclusive(err.Error())
 			return
 		}
-		if w.SS != nil {
+		if w.CC != nil {
+			// concurrent phases: the interleaving is not part of the witness; repeat the case a few times
+			for k := 0; k < 20 && c01CCRun(r, w.CC, &c01CStat{}); k++ {
+			}
+		} else if w.SS != nil {
 			c01SSCheck(r, w.SS, &c01SSStat{})
 		} else if w.Hist != nil {
 			c01HistCheck(r, w.Hist, &c01HistStat{})
@@ -456,6 +462,7 @@ func c01(r *vkit.Run) {
 	vkit.Parallel(r.N(500, 5000), 0, func(i int) { c01Transient(r, st, r.Rng("transient", i)) })
 	r.Extra("after_weight_changing_update_reported_not_asserted", st)
 	c01Histories(r)
+	c01Concurrent(r)
 	waitSlowStart()
 }
 
